@@ -229,7 +229,7 @@ def make_cases(ctx):
                          "short"):
                 yield "fin-%s-%s-%s" % (sc, role, what), dict(
                     site="finished", sc=sc, role=role, cls=what)
-    for what in ("honest", "other_hash", "same_hash", "both"):
+    for what in ("honest", "other_hash", "same_hash", "both", "ticket_then_ext_psk"):
         yield "stolen-ticket-%s" % what, dict(site="stolen_ticket", cls=what)
     for ee, dc in (("ecdsa256", "ed25519"), ("ecdsa256", "ecdsa384"),
                    ("rsa", "ecdsa256"), ("ecdsa384", "rsa")):
@@ -645,7 +645,9 @@ def run_stolen_ticket(ctx, cid, P):
     client's key and offered as a PSK identity with a junk secret"""
     from vt.flavours import TK, pump
     var = P["cls"]
-    c1 = ver_settings((3, 4), cipherNames=["aes128gcm"])
+    ext = (creds.PSK_ID, creds.PSK_SECRET, "sha256")
+    c1 = ver_settings((3, 4), cipherNames=[
+        "aes256gcm" if var == "ticket_then_ext_psk" else "aes128gcm"])
     s1 = ver_settings((3, 4), ticketKeys=TK)
     fl = Flavor("cert", skey="rsa", ckey="rsa", req_cert=True, cset=c1,
                 sset=s1)
@@ -668,6 +670,16 @@ def run_stolen_ticket(ctx, cid, P):
                      cset=ver_settings((3, 4), cipherNames=["aes128gcm"]),
                      sset=ver_settings((3, 4), ticketKeys=TK),
                      session=p.c.session)
+    elif var == "ticket_then_ext_psk":
+        # the copied ticket (issued under a SHA-384 suite, unusable with the
+        # SHA-256 suite on offer) in front of an external PSK the peer does
+        # hold: the handshake is keyed by the external PSK only, and that
+        # proves nothing about the ticket's owner
+        cs = ver_settings((3, 4), cipherNames=["aes128gcm"],
+                          pskConfigs=[(blob, bytearray(48), "sha384"), ext])
+        fl2 = Flavor("psk", skey="rsa", req_cert=True, cset=cs,
+                     sset=ver_settings((3, 4), ticketKeys=TK,
+                                       pskConfigs=[ext]))
     else:
         suites = {"other_hash": ["aes256gcm"], "same_hash": ["aes128gcm"],
                   "both": ["aes256gcm", "aes128gcm"]}[var]
